@@ -293,6 +293,10 @@ def tbl4_decode_siblings(ctx):
     d_arms, d_wild = arms_over_enum(dec, 'CodecOp')
     d_ok = {v for v, arm in d_arms if not astlib.arm_rejects(arm['body'])}
     d_all = {v for v, arm in d_arms}
+    # ops that the callers of decode() rewrite into another op on the decompressed copy they decode
+    # (hex-packed strings are re-packed as plain strings: the strings must exist in a section that
+    # lives as long as the column copy)
+    rewritten = _ops_rewritten_before_decode(ctx, ast, f, dec)
     for v, arm in sorted(q_arms, key=lambda x: x[0]):
         if astlib.arm_rejects(arm['body']):
             continue
@@ -300,22 +304,35 @@ def tbl4_decode_siblings(ctx):
         for dv, darm in d_arms:
             if dv == v:
                 where_ = 'src/%s:%d' % (f, darm['l'])
-        ctx.check('TBL-4', 'column::decode|%s' % v, v in d_ok,
+        via = rewritten.get(v)
+        okv = v in d_ok or (via is not None and via in d_ok)
+        ctx.check('TBL-4', 'column::decode|%s' % v, okv,
                   'CodecOp::%s is decodable on the query path; compaction decode arm: %s'
-                  % (v, 'ok' if v in d_ok else ('panics/todo!' if v in d_all else 'missing')), where_)
+                  % (v, 'ok' if v in d_ok else
+                     ('re-encoded as %s on the copy every caller decodes from' % via if okv else
+                      ('panics/todo!' if v in d_all else 'missing'))), where_)
     # every arm consumes the section stack: the codec may have decompressed section 0 in an
     # earlier op (LZ4 / Pco are prepended by lz4_or_pco_encode), so an arm that reads the raw
     # section parameter decodes compressed bytes
     params = [p_['name'] for p_ in dec.get('params', [])]
     raw = params[1] if len(params) > 1 else 'sections'
+    # ... unless every caller decodes compressed columns from a decompressed copy: then section 0
+    # *is* the decompressed data and an arm may borrow from it (which it must, to hand out &str
+    # that live as long as the column)
+    pre = _decode_callers_decompress_first(ctx)
+    ctx.check('TBL-4', 'decode-callers|compressed-columns-decompressed-first', pre['ok'],
+              'every caller of DataSource::decode (%s) takes LZ4/Pco-compressed columns through '
+              'lz4_or_pco_decoded() first: %s' % (pre['callers'], pre['detail']), pre['where'])
     for v, arm in sorted(d_arms, key=lambda x: x[0]):
         if v == 'PushDataSection' or astlib.arm_rejects(arm['body']):
             continue
         reads_raw = [n for n in find(arm['body'], 'index') if n['base'].get('k') == 'path' and n['base']['path'] == raw]
-        ctx.check('TBL-4', 'column::decode|%s|input-from-stack' % v, not reads_raw,
-                  'arm %s takes its input from %s' % (v, 'the raw `%s[..]` parameter: if the section was '
-                                                        'compressed (LZ4/Pco op earlier in the codec) it '
-                                                        'decodes compressed bytes and panics' % raw
+        ctx.check('TBL-4', 'column::decode|%s|input-from-stack' % v, not reads_raw or pre['ok'],
+                  'arm %s takes its input from %s' % (v, ('the raw `%s[..]` parameter, which every caller '
+                                                         'decompresses first' % raw) if reads_raw and pre['ok'] else
+                                                     ('the raw `%s[..]` parameter: if the section was '
+                                                      'compressed (LZ4/Pco op earlier in the codec) it '
+                                                      'decodes compressed bytes and panics' % raw)
                                                      if reads_raw else 'the section stack'),
                   'src/%s:%d' % (f, arm['l']))
     # null map: in the codecs the builders produce, element-wise ops follow `Nullable`
@@ -352,6 +369,62 @@ def tbl4_decode_siblings(ctx):
                       '%s-compressed %s sections can be produced (lz4_or_pco_encode tags the section '
                       'type) and are decoded by %s; compaction decode: %s'
                       % (comp, t, fn_name, 'ok' if t in have else 'panics'), 'src/' + f)
+
+
+def _ops_rewritten_before_decode(ctx, ast, f, dec):
+    """{op: op'} for codec ops that the copy-for-decode routine (`lz4_or_pco_decoded` and the helpers
+    in the same file) replaces before `decode` sees the codec - valid only if every caller of decode
+    goes through that routine."""
+    pre = _decode_callers_decompress_first(ctx)
+    if not pre['ok']:
+        return {}
+    out = {}
+    for (p, q, n) in ast.fns:
+        if not p.endswith(f) or n is dec or not n.get('body'):
+            continue
+        for m in find(n, 'match'):
+            for arm in m['arms']:
+                vs = [last_seg(v) for v in top_pat_variants(arm['pat']) if 'CodecOp' in v]
+                if len(vs) != 1:
+                    continue
+                tg = [last_seg(x['path']) for x in walk(arm['body']) if isinstance(x, dict) and x.get('k') == 'path'
+                      and x.get('path', '').startswith('CodecOp::')]
+                if len(tg) == 1 and tg[0] != vs[0]:
+                    out[vs[0]] = tg[0]
+    return out
+
+
+def _decode_callers_decompress_first(ctx):
+    """Every call site of `DataSource::decode` outside column.rs: the body also calls
+    `lz4_or_pco_decoded` on a value of the same origin and every decode call is dominated by it."""
+    P = ctx.P
+    sites = [(b, blk, t) for (b, blk, t) in P.call_sites(
+        lambda f: re.search(r' as mem_store::column::DataSource>::decode$', f or '') is not None)
+        if not blk.cleanup and not b.name.startswith('mem_store::column::')]
+    out = {'ok': bool(sites), 'callers': sorted({b.name.split('::')[-1] for b, _b, _t in sites}),
+           'detail': 'no caller found' if not sites else 'yes', 'where': None}
+    for b, blk, t in sites:
+        out['where'] = out['where'] or where(t)
+        cfg = CFG(b)
+        pres = [(pb, pt) for pb, pt in b.calls() if not pb.cleanup and
+                re.search(r'DataSource>::lz4_or_pco_decoded$', pt.func or '')]
+        if not pres or not any(cfg.dominates(pb.id, blk.id) for pb, pt in pres):
+            out['ok'] = False
+            out['detail'] = '%s decodes without decompressing first' % b.name
+            out['where'] = where(t)
+            break
+        # the decoded receiver is either the decompressed copy or the column itself
+        du = DefUse(b)
+        rorg = du.origins(base_local(t.args[0]))
+        porgs = [du.origins(base_local(pt.args[0])) for pb, pt in pres]
+        from_copy = any(pt is c for (_b, c) in rorg['calls'] for pb, pt in pres)
+        same_col = any(rorg['locals'] & po['locals'] for po in porgs)
+        if not (from_copy or same_col):
+            out['ok'] = False
+            out['detail'] = '%s decodes a value unrelated to the decompressed column' % b.name
+            out['where'] = where(t)
+            break
+    return out
 
 
 def _ops_following_nullable(ast):
